@@ -304,6 +304,8 @@ def _request(gen, fam, method, args, style='wrapped'):
         body = ('<e:Envelope xmlns:e="%s">%s<e:Body>%s%s</e:Body></e:Envelope>' % (
             e, hdr, '<!-- first child of Body -->' if NOISE[0] == 'comments' else '', xml_body(gen, method, args, style=style))).encode('utf8')
         env['CONTENT_TYPE'] = 'text/xml; charset=utf-8' if fam == 'soap11' else 'application/soap+xml; charset=utf-8'
+    elif fam == 'jsonrpc':
+        body = json.dumps({'ver': 1, 'body': dict_body(method, args, 'json')}).encode('utf8'); env['CONTENT_TYPE'] = 'application/json'
     elif fam == 'json':
         body = json.dumps(dict_body(method, args, fam)).encode('utf8'); env['CONTENT_TYPE'] = 'application/json'
     elif fam == 'yaml':
@@ -340,6 +342,9 @@ def protocols(fam, validator='soft', **kw):
     from spyne.protocol.yaml import YamlDocument
     from spyne.protocol.msgpack import MessagePackDocument
     from spyne.protocol.http import HttpRpc
+    if fam == 'jsonrpc':
+        from spyne.protocol.json import JsonRpc
+        return JsonRpc('spyne', validator=validator, **kw), JsonDocument()
     P = {'xml': XmlDocument, 'soap11': Soap11, 'soap12': Soap12, 'json': JsonDocument, 'yaml': YamlDocument,
          'msgpack': MessagePackDocument, 'msgpack_bin': MessagePackDocument, 'http': HttpRpc}[fam]
     out = JsonDocument if fam == 'http' else P
@@ -375,7 +380,7 @@ def fault_code(fam, res):
             vals = [e.text for e in kids['Code'].iter() if etree.QName(e).localname == 'Value']
             head = {'Sender': 'Client', 'Receiver': 'Server'}.get(vals[0].split(':')[-1], vals[0])
             return '.'.join([head] + vals[1:])
-        if fam in ('json', 'http'):
+        if fam in ('json', 'http', 'jsonrpc'):
             d = json.loads(body.decode('utf8'))
         elif fam == 'yaml':
             import yaml
